@@ -42,9 +42,9 @@ def secrets(tier):
     s.append(("ones", bytes([0xff]) * 64))
     s.append(("count", bytes(range(64))))
     s.append(("nibble8", bytes([0x88]) * 64))
-    s.append(("l-1", (L - 1).to_bytes(32, "little") * 2))
-    s.append(("one", bytes([1] + [0] * 31) * 2))
     if tier == "thorough":
+        s.append(("l-1", (L - 1).to_bytes(32, "little") * 2))
+        s.append(("one", bytes([1] + [0] * 31) * 2))
         for b in (0x77, 0x0f, 0xf0, 0x80, 0x7f, 0x55, 0xaa, 0x08, 0xf8):
             s.append(("byte%02x" % b, bytes([b]) * 64))
         for bit in (0, 1, 2, 3, 4, 7, 8, 63, 64, 127, 128, 251, 252, 253, 254, 255):
@@ -134,7 +134,9 @@ def first_divergence(bins, op, pa, pb, scratch):
 def run(pid, tier, log, scratch):
     t0 = time.time()
     if tier == "quick":
-        plan = [("simd", True, QUICK_OPS), ("serial64", True, QUICK_OPS[:7]), ("avx512", True, ["ed_mul", "ed_mul_secret_point", "ed_multiscalar_2"])]
+        # every operation of the list on the default build (except the three slowest table radices), a thinner
+        # secret alphabet than the thorough tier; the core operations again on the serial and IFMA builds
+        plan = [("simd", True, [o for o in CT_OPS if o not in TABLE_OPS[2:]]), ("serial64", True, QUICK_OPS[:7]), ("avx512", True, ["ed_mul", "ed_mul_secret_point", "ed_multiscalar_2"])]
     else:
         plan = [("simd", True, CT_OPS), ("simd", False, [o for o in CT_OPS if o not in TABLE_OPS]), ("serial64", True, CT_OPS),
                 ("serial32", True, [o for o in CT_OPS if o not in TABLE_OPS[1:]]), ("fiat64", True, QUICK_OPS), ("fiat32", True, QUICK_OPS),
